@@ -30,6 +30,10 @@ type c09cCase struct {
 // runC09Concurrent: the close frame is held inside the transport while other
 // goroutines keep calling the write API.
 func runC09Concurrent(ctx *core.Ctx, out *core.Out) {
+	if ctx.Idx%40 == 13 {
+		c09PingDuringStalledClose(ctx, out)
+		return
+	}
 	r := ctx.R
 	cs := c09cCase{Cfg: genCfg(r), Path: r.Intn(nClosePaths), NCtl: r.Range(0, 4), NMsgs: r.Range(2, 10), HoldUs: r.Range(200, 8000)}
 	cs.At = r.Intn(cs.NMsgs + 1)
@@ -391,4 +395,150 @@ func closeFrameDetector(masked bool) func(p []byte) bool {
 		}
 		return p[0]&0x0f == 8
 	}
+}
+
+// c09PingDuringStalledClose: the close frame is held inside the transport's Write for longer
+// than the default ping handler is prepared to wait for the connection (one second), while a
+// ping and a data message arrive. The handler gives up, the reader goes on; when the transport
+// finally accepts the close frame, that frame must be the last thing ever written - a reply
+// that could not be sent in time must not be sent late.
+func c09PingDuringStalledClose(ctx *core.Ctx, out *core.Out) {
+	r := ctx.R
+	cfg := Cfg{Server: r.Bool(), RB: 256, WB: []int{128, 512, 4096}[r.Intn(3)]}
+	path := []int{cpWriteControl, cpWriteMessage, cpNextWriter, cpPrepared}[r.Intn(4)]
+	a, b := xport.NewPipe()
+	c := newConn(a, cfg, nil, 0)
+	a.GateIf = closeFrameDetector(!cfg.Server)
+	gate := make(chan struct{})
+	a.Gate = gate
+	a.Gated = make(chan struct{}, 1)
+	released := false
+	release := func() {
+		if !released {
+			released = true
+			close(gate)
+		}
+	}
+	defer func() { release(); a.Close(); b.Close() }()
+	desc := map[string]interface{}{"cfg": cfg, "close_path": closePathNames[path]}
+	out.Eval(fmt.Sprintf("ping-during-stalled-close|%v|%d", cfg, path), true)
+
+	got := make(chan string, 16)
+	go func() {
+		defer close(got)
+		for {
+			_, p, err := c.ReadMessage()
+			if err != nil {
+				return
+			}
+			got <- string(p)
+		}
+	}()
+	body := ws.FormatCloseMessage(1000, "bye")
+	closed := make(chan error, 1)
+	go func() {
+		switch path {
+		case cpWriteControl:
+			closed <- c.WriteControl(ws.CloseMessage, body, time.Now().Add(time.Hour))
+		case cpWriteMessage:
+			closed <- c.WriteMessage(ws.CloseMessage, body)
+		case cpNextWriter:
+			w, err := c.NextWriter(ws.CloseMessage)
+			if err == nil {
+				if _, err = w.Write(body); err == nil {
+					err = w.Close()
+				}
+			}
+			closed <- err
+		default:
+			pm, err := ws.NewPreparedMessage(ws.CloseMessage, body)
+			if err == nil {
+				err = c.WritePreparedMessage(pm)
+			}
+			closed <- err
+		}
+	}()
+	limit := time.After(30 * time.Second)
+	select {
+	case <-a.Gated:
+	case <-limit:
+		out.Inconcl("the close frame never reached the transport")
+		return
+	}
+	// the peer's ping and a message behind it arrive while the close frame is stuck
+	nPings := r.Range(1, 2)
+	for i := 0; i < nPings; i++ {
+		f := wire.Frame{Op: 9, Fin: true, Masked: cfg.Server, Key: [4]byte{9, 8, 7, 6}, Payload: []byte(fmt.Sprintf("ping-%d-while-close-stalls", i))}
+		b.Write(wire.Append(nil, f))
+	}
+	b.Write(wire.Append(nil, wire.Frame{Op: 1, Fin: true, Masked: cfg.Server, Key: [4]byte{1, 2, 3, 4}, Payload: []byte("behind-the-ping")}))
+	t0 := time.Now()
+	select {
+	case m, ok := <-got:
+		if !ok || m != "behind-the-ping" {
+			out.Inconcl(fmt.Sprintf("the reader did not deliver the message behind the ping (got %q, open=%v)", m, ok))
+			return
+		}
+	case <-limit:
+		out.Inconcl("the reader stayed blocked behind the ping for 30 s while the writer was stalled")
+		return
+	}
+	waited := time.Since(t0)
+	release()
+	select {
+	case err := <-closed:
+		if err != nil {
+			out.Violate("C09:close-call-failed", fmt.Sprintf("sending the close through %s failed although the transport accepted it in the end: %v", closePathNames[path], err), desc)
+			return
+		}
+	case <-limit:
+		out.Inconcl("the close-sending call did not return after the gate was opened")
+		return
+	}
+	// later calls fail, and nothing more is written
+	e1 := c.WriteMessage(1, []byte("late"))
+	e2 := c.WriteControl(ws.PingMessage, []byte("late"), time.Now().Add(time.Second))
+	if !errors.Is(e1, ws.ErrCloseSent) || !errors.Is(e2, ws.ErrCloseSent) {
+		out.Violate("C09:call-after-close-not-ErrCloseSent", fmt.Sprintf("after the close frame was written: WriteMessage -> %v, WriteControl -> %v", e1, e2), desc)
+		return
+	}
+	time.Sleep(2 * time.Millisecond)
+	out.Count("pings_during_a_stalled_close", int64(nPings))
+	out.Count("ping_handler_wait_ms_sum", waited.Milliseconds())
+	frames, rest, derr := wire.Decode(a.Written())
+	desc["frames"] = framesDesc(frames, 8)
+	if derr != nil || len(frames) == 0 {
+		out.Violate("C09:undecodable", fmt.Sprintf("write log does not decode: %v (%d frames)", derr, len(frames)), desc)
+		return
+	}
+	ci := -1
+	for i, f := range frames {
+		if f.Op == 8 {
+			ci = i
+			break
+		}
+	}
+	if ci < 0 {
+		out.Violate("C09:close-frame-missing", "the close call returned nil but no close frame is on the wire", desc)
+		return
+	}
+	if ci != len(frames)-1 || len(rest) != 0 {
+		out.Violate("C09:bytes-after-close", fmt.Sprintf("%d frame(s) and %d loose byte(s) were written after the close frame (first: opcode %d, %q); the ping handler had given up after %v", len(frames)-1-ci, len(rest), opAfter(frames, ci), payloadAfter(frames, ci), waited.Round(time.Millisecond)), desc)
+		return
+	}
+	out.Count("concurrent_runs", 1)
+}
+
+func opAfter(fs []wire.Frame, i int) int {
+	if i+1 < len(fs) {
+		return fs[i+1].Op
+	}
+	return -1
+}
+
+func payloadAfter(fs []wire.Frame, i int) string {
+	if i+1 < len(fs) {
+		return string(core.Trunc(fs[i+1].Payload, 40))
+	}
+	return ""
 }
